@@ -18,8 +18,13 @@ impl StrengthReduction {
         }
     }
 
+    /// Returns `true` if evaluating the expression twice instead of once cannot be observed.
+    ///
+    /// Only number literals qualify: an identifier can hold an object (whose `valueOf` would run
+    /// twice) or a `BigInt` (`x ** 2` throws a `TypeError`, `x * x` does not).
     fn is_side_effect_free(expr: &Expression) -> bool {
-        matches!(expr, Expression::Literal(_) | Expression::Identifier(_))
+        use boa_ast::expression::literal::LiteralKind;
+        matches!(expr, Expression::Literal(lit) if matches!(lit.kind(), LiteralKind::Int(_) | LiteralKind::Num(_)))
     }
 
     fn as_literal_int(expr: &Expression) -> Option<i32> {
